@@ -97,6 +97,22 @@ func c20TickerReqs() int {
 	return n
 }
 
+// c20ErrOnly is cancelled through Err() only.
+type c20ErrOnly struct {
+	context.Context
+	never     chan struct{}
+	cancelled bool
+}
+
+func (c *c20ErrOnly) Done() <-chan struct{} { return c.never }
+func (c *c20ErrOnly) Err() error {
+	if c.cancelled {
+		return context.Canceled
+	}
+	return nil
+}
+func (c *c20ErrOnly) cancel() { c.cancelled = true }
+
 func c20Attempt() {
 	// ---- the whole program is drawn up front
 	count := simrt.DrawRange(1, 6*simrt.Scale())
@@ -106,6 +122,7 @@ func c20Attempt() {
 	cancelMode := []int{c20Never, c20Never, c20Before, c20Race, c20AfterTime, c20AfterTime, c20AfterK, c20AfterK, c20AfterStep, c20Quiet}[simrt.Draw(10)]
 	takeFirst := simrt.Chance(1, 2)
 	deadlineDraw := simrt.Chance(1, 2)
+	errOnlyDraw := simrt.Chance(1, 3)
 	raceStall := simrt.DrawRange(0, 5)
 	cancelSleep := simrt.DrawRange(0, 2*count+2) // in half rates
 	cancelStall := simrt.DrawRange(0, 40)
@@ -147,6 +164,14 @@ func c20Attempt() {
 			d = half
 		}
 		ctx, cancel = context.WithTimeout(context.Background(), d)
+	}
+	// ... or (timed mode, sometimes) is a context whose Done channel never fires and whose Err() alone
+	// reports the cancellation: LinearAttempt re-checks Err() after every tick for exactly this case
+	errOnly := cancelMode == c20AfterTime && !byDeadline && errOnlyDraw
+	if errOnly {
+		eo := &c20ErrOnly{Context: context.Background(), never: make(chan struct{})}
+		ctx, cancel = eo, eo.cancel
+		simrt.Probe("context_cancelled_through_err_only")
 	}
 	ctxDone := ctx.Done() // fetched here so that the step hook below polls it without touching the context's lock
 	st := &c20State{count: count, rate: rate}
@@ -315,14 +340,22 @@ func c20Attempt() {
 	// ---- drive the run with bounded quiescence: the ticker is periodic while the producer lives
 	maxIter := pauseUnits/2 + cancelSleep/2 + 4*count + 16
 	lastSeq, lastIn := -1, false
+	windowsAfterCancel := 0
 	for iter := 0; ; iter++ {
+		cancelledAtStart := st.cancelRet != 0
 		simrt.Quiesce(2 * rate)
 		if simrt.Failed() {
 			return
 		}
+		if cancelledAtStart {
+			windowsAfterCancel++
+		}
 		alive, desc := c20LibAlive(n0)
 		if !alive {
 			break
+		}
+		if errOnly && st.cancelRet != 0 && windowsAfterCancel < 1 {
+			continue // a context that only reports through Err() is noticed at the next tick: give it one
 		}
 		if st.cancelRet != 0 {
 			simrt.Failf("C20.producer-alive-after-cancel", "quiescent after cancel() returned, but the producing goroutine is still there: %s", desc)
